@@ -151,12 +151,12 @@ def run():
   queries, proved = literal_part(out)
   src = K.HEAD + K.BODY.replace('%(FLAGLEN)d', '3')
   claimed = [n for n in K.NAMES if n not in ('k_flag_value_is_data', 'k_function_args_verbatim')]
-  res = kernels.run_kernels(out, 'literals and flags', src, claimed, 600, replay_k)
+  res = kernels.run_kernels(out, 'literals and flags', src, claimed, 1500, replay_k)
   hunt = kernels.run_kernels(out, 'bug hunting only (not claimed)', src,
                              ['k_flag_value_is_data', 'k_function_args_verbatim'], 60, replay_k, must_confirm=False)
   src15, names15, _ = K15.source(thorough)
   res15 = kernels.run_kernels(out, 'string opacity (shared with C15)', src15,
-                              ['k_opacity_dq', 'k_opacity_triple'], 3600 if thorough else 900, replay_k)
+                              ['k_opacity_dq', 'k_opacity_triple'], 5400 if thorough else 2400, replay_k)
   confirmed = [n for n in claimed if res[n].get('verdict') == 'confirmed'] + \
               [n for n in ('k_opacity_dq', 'k_opacity_triple') if res15[n].get('verdict') == 'confirmed']
   out.coverage.update({
